@@ -63,7 +63,9 @@ def gen_script(rnd, long=False):
                 for _ in range(rnd.randint(1, 2)):
                     ops.append(["net", "refuse", 0.0])
         elif c < 0.86:
-            ops.append(["net", rnd.choice(["refuse", "accept"]), rnd.choice([0.0, 0.3, 2.5])])
+            ops.append(["net", rnd.choice(["refuse", "accept", "refuse", "accept", "timeout",
+                                           "unreachable", "gaierror"]),
+                        rnd.choice([0.0, 0.3, 2.5])])
         elif c < 0.89:
             ops.append(["on_connect_send", rnd.choice(S.KINDS), rnd.choice(["idem", "long"])])
         elif c < 0.93:
